@@ -1457,15 +1457,28 @@ func (is IndexSet) measurementNamesByExpr(auth query.FineAuthorizer, expr influx
 			}
 			rhs, err := is.measurementNamesByExpr(auth, e.RHS)
 			if err != nil {
-				lhs.Close()
+				if lhs != nil {
+					lhs.Close()
+				}
 				return nil, err
 			}
 
-			mis := MeasurementIterators{lhs, rhs}
-			if e.Op == influxql.OR {
-				return newFileMeasurementSliceIterator(bytesutil.Union(lhs.UnderlyingSlice(), rhs.UnderlyingSlice()), mis), nil
+			// Either side is nil when it matches nothing (e.g. an index set
+			// without measurements): treat it as empty.
+			var ls, rs [][]byte
+			var mis MeasurementIterators
+			if lhs != nil {
+				ls = lhs.UnderlyingSlice()
+				mis = append(mis, lhs)
 			}
-			return newFileMeasurementSliceIterator(bytesutil.Intersect(lhs.UnderlyingSlice(), rhs.UnderlyingSlice()), mis), nil
+			if rhs != nil {
+				rs = rhs.UnderlyingSlice()
+				mis = append(mis, rhs)
+			}
+			if e.Op == influxql.OR {
+				return newFileMeasurementSliceIterator(bytesutil.Union(ls, rs), mis), nil
+			}
+			return newFileMeasurementSliceIterator(bytesutil.Intersect(ls, rs), mis), nil
 
 		default:
 			return nil, fmt.Errorf("invalid tag comparison operator")
